@@ -64,6 +64,9 @@ def build_domain(gd, d, rng):
     for u, v in gd["bi"]:
         if u not in Z and v not in Z:
             g.add_undirected_edge(Variable(u), Variable(v))
+    for u, v in d.get("added") or []:
+        # a policy may make its variable depend on variables it did not depend on before (sigma_Z = f(W))
+        g.add_directed_edge(Variable(u), Variable(v))
     for t in d["transport"]:
         g.add_directed_edge(Variable("T_" + t), Variable(t))
     topo = c17.random_topo(RG.from_nx(g), rng)
@@ -75,6 +78,24 @@ def build_domain(gd, d, rng):
     form = sum(map(ord, "".join(sorted(Z)) + d["population"])) % 3  # the collection the policy variables come in
     zcol = set(zs) if form == 0 else (zs if form == 1 else zs[::-1])
     return (g, topo), (zcol, PP[pop]([Variable(n) for n in sorted(gd["nodes"])]))
+
+
+def with_policy_edges(rng, gd, doms):
+    """Some policies get new parents: an edge W -> Z for a policy variable Z and a non-descendant W of Z in that domain's
+    graph (the domain graph stays acyclic; such domains are outside the convention the exact families cover, so only
+    the totality of the call is judged for them)."""
+    out = []
+    ref = RG.make(gd["nodes"], [tuple(e) for e in gd["di"]], [])
+    for d in doms:
+        d = dict(d)
+        if d["policy"] and rng.random() < 0.5:
+            z = rng.choice(d["policy"])
+            desc = {str(v) for v in ref.descendants_inclusive({z})}
+            cand = [w for w in gd["nodes"] if w not in desc and w not in d["policy"]]
+            if cand:
+                d["added"] = [[rng.choice(cand), z]]
+        out.append(d)
+    return out
 
 
 def run_case(ctx, gd, doms, out, cond, rng, wrapper=0, cards=None):
@@ -102,6 +123,23 @@ def run_case(ctx, gd, doms, out, cond, rng, wrapper=0, cards=None):
                     return CounterfactualVariable(name=v.name, star=star, interventions=v.interventions)
                 return Variable(v.name, star=star)
 
+            # do the same arguments pass y0's own validation in the direct (tuple) form?  Then the wrapper must not fail
+            import y0.algorithm.counterfactual_transport.api as _api
+
+            try:
+                with kernel.quiet():
+                    if cond:
+                        _v = _api._validate_transport_conditional_counterfactual_query_input
+                        getattr(_v, "__vmon_original__", _v)(outcomes=gev.to_pairs(out), conditions=gev.to_pairs(cond),
+                                                             target_domain_graph=g, domain_graphs=dgs, domain_data=dd)
+                    else:
+                        _v = _api._validate_transport_unconditional_counterfactual_query_input
+                        getattr(_v, "__vmon_original__", _v)(
+                            event=[(gev.var_of(x), (None if x[2] is None else gev.to_pairs([x])[0][1])) for x in out],
+                            target_domain_graph=g, domain_graphs=dgs, domain_data=dd)
+                kernel.LOG.case["direct_form_passes_validation"] = True
+            except Exception:  # noqa: BLE001
+                kernel.LOG.case["direct_form_passes_validation"] = False
             cds = []
             for j, ((dg, topo), (zcol, pp)) in enumerate(zip(dgs, dd)):
                 kw = {"graph": dg, "policy_variables": zcol,
@@ -190,6 +228,8 @@ def run_shard(ctx):
         n = rng.choice([2, 3, 3, 4, 4] + ([5] if ctx.tier == "thorough" else []))
         gd = gg.random_admg(rng, n, p_bi=rng.choice([0.1, 0.2, 0.35]))
         doms = random_domains(rng, gd)
+        if i % 4 == 2:
+            doms = with_policy_edges(rng, gd, doms)
         if i % 11 == 5:
             pc = planted_cross_world(rng, gd)
             if pc is not None:
@@ -271,7 +311,8 @@ def replay(case):
     gd = {"nodes": gd["nodes"], "di": gd["di"], "bi": gd["bi"]}
     f = lambda ev: [[c[0], [list(w) for w in c[1]], c[2]] for c in ev]  # noqa: E731
     doms = [{"population": d["population"], "transport": d["transport"], "policy": d["policy"],
-             **({"topo": d["topo"]} if d.get("topo") else {})} for d in case["domains"]]
+             **({"topo": d["topo"]} if d.get("topo") else {}), **({"added": d["added"]} if d.get("added") else {})}
+            for d in case["domains"]]
     run_case(_C(), gd, doms, f(case["outcomes"]), f(case.get("conditions") or []), random.Random(0), cards=case.get("cards"))
 
 
